@@ -55,6 +55,7 @@ type relStep struct {
 	PDR    uint16   `json:"pdr"`
 	Action uint16   `json:"action"`
 	Pkt    string   `json:"pkt"`
+	Count  int      `json:"count"` // op "burst": Count packets with payloads Pkt || 3-octet index, one observation at the end
 }
 
 type relObs struct {
@@ -103,6 +104,7 @@ func releaseCase(f *fixture, steps []relStep) []relObs {
 			return []relObs{{Fault: "harness: " + err.Error()}}
 		}
 		defer gnbs[i].Close()
+		_ = gnbs[i].SetReadBuffer(4 << 20) // a burst of 512 released packets must fit into the receive queue
 	}
 	cfg := &factory.Config{Pfcp: &factory.Pfcp{Addr: f.prefix + "1", NodeID: f.prefix + "1", RetransTimeout: time.Hour, MaxRetrans: 0}}
 	srv := pfcp.NewPfcpServer(cfg, g)
@@ -112,6 +114,12 @@ func releaseCase(f *fixture, steps []relStep) []relObs {
 		srv.Stop()
 		g.Close()
 		k.CloseConns()
+		done := make(chan struct{})
+		go func() { wg.Wait(); close(done) }()
+		select {
+		case <-done:
+		case <-time.After(3 * time.Second):
+		}
 	}()
 	up := false
 	for i := 0; i < 200 && !up; i++ {
@@ -163,6 +171,18 @@ func releaseCase(f *fixture, steps []relStep) []relObs {
 			}
 		case "del":
 			send(message.NewSessionDeletionRequest(0, 0, st.SEID, seq, 0))
+		case "burst":
+			base, _ := hex.DecodeString(st.Pkt)
+			for n := 0; n < st.Count; n++ {
+				pk := append(append([]byte{}, base...), byte(n>>16), byte(n>>8), byte(n))
+				k.InjectBuffer(st.SEID, st.PDR, st.Action, pk)
+			}
+			for j := 0; j < 40000; j++ {
+				if _, n, _ := srv.VerifChanLens(); n == 0 {
+					break
+				}
+				time.Sleep(50 * time.Microsecond)
+			}
 		case "buffer":
 			pk, _ := hex.DecodeString(st.Pkt)
 			k.InjectBuffer(st.SEID, st.PDR, st.Action, pk)
@@ -174,9 +194,10 @@ func releaseCase(f *fixture, steps []relStep) []relObs {
 			}
 		}
 		alive := f.barrierRT(3 * time.Second)
+		// everything was written before the barrier was answered, hence is queued in the gNB sockets
 		for i := range gnbs {
 			for {
-				b, _, ok := gnbs[i].Recv(3 * time.Millisecond)
+				b, ok := gnbs[i].RecvNow()
 				if !ok {
 					break
 				}
